@@ -505,7 +505,25 @@ def build_unit(template_path, src_dir, verus_dir):
     for line in open(template_path).read().splitlines():
         s = line.strip()
         if s.startswith("//@INCLUDE"):
-            out.append(open(os.path.join(verus_dir, s.split()[1])).read())
+            inc = open(os.path.join(verus_dir, s.split()[1])).read()
+            # `except=f1,f2`: the ASSUMED contract of these functions is left out because this unit verifies their
+            # real bodies itself
+            em = re.search(r"except=(\S+)", s)
+            if em:
+                for fname in em.group(1).split(","):
+                    imask = code_mask(inc)
+                    fs, bo, bc = find_fn(inc, imask, fname)
+                    # include the attribute lines / doc comments directly above
+                    start = inc.rfind("\n", 0, fs) + 1
+                    while True:
+                        prev = inc.rfind("\n", 0, start - 1) + 1
+                        pl = inc[prev:start].strip()
+                        if pl.startswith("#[") or pl.startswith("//"):
+                            start = prev
+                        else:
+                            break
+                    inc = inc[:start] + inc[bc + 1:]
+            out.append(inc)
         elif s.startswith("//@LOOP"):
             m = re.match(r"//@LOOP\s+(\d+)\s+(.*)", s)
             loops[int(m.group(1))] = loops.get(int(m.group(1)), "") + " " + m.group(2)
